@@ -1,8 +1,10 @@
 """Bounded stand-in for C19 (seqlet.recursive_seqlets / seqlet.tfmodisco_seqlets) -- never counted as proved.
 
-Every case builds an attribution track from a seed (noise + planted bumps, all values multiples of
-1/64 so that every window sum is exact in float32 and float64), calls the REAL caller and checks the
-returned DataFrame against the input tensor with an oracle written from the statement:
+Every case builds an attribution track from a seed (noise + planted bumps; by default all values are
+multiples of 1/64 so that every window sum is exact in float32 and float64; `quant: False` cases use
+unrounded noise and a rigorous rounding bound instead), presents it to the REAL caller in one of several
+memory layouts / call styles and checks the returned DataFrame against the input with an oracle written
+from the statement:
 
 recursive_seqlets
  * columns example_idx, start, end, attribution, p-value; 0 <= example_idx < n (integral);
@@ -10,77 +12,185 @@ recursive_seqlets
  * length before flanks: there is a core span [s, s+c) inside the example with
    min_seqlet_len <= c <= max_seqlet_len, start = max(s - additional_flanks, 0) and
    end = min(s + c + additional_flanks, length)  (for additional_flanks = 0: min <= end-start <= max);
- * attribution = sum of X[example, start:end] (exact arithmetic, tolerance 1e-9 relative);
+ * attribution = sum of X[example, start:end] (quantised tracks: exact, tolerance 1e-9 relative; unrounded
+   tracks: within 2*length*eps(dtype)*(1+max|prefix sum|), the worst-case rounding of two running sums);
  * p-value <= threshold; rows sorted by ascending p-value;
- * the input (torch tensor or numpy array, float32 / float64) is unchanged.
+ * the input (torch tensor or numpy array, float32 / float64; C-contiguous, Fortran-ordered, a column- or
+   row-strided view with an offset into a larger buffer, or a reversed view) is unchanged, and so is the
+   buffer it is a view of;
+ * call styles: keywords, positional (X, threshold, min, max, flanks), all defaults omitted (the documented
+   defaults threshold=0.01, min_seqlet_len=4, max_seqlet_len=25, additional_flanks=0 are what the oracle then uses),
+   only min/max omitted.
 tfmodisco_seqlets
  * columns example_idx, start, end, attribution; end - start = window_size + 2*flank,
    0 <= start, end <= length, valid example index;
  * attribution = sum of X[example, start+flank : end-flank];
  * two seqlets of one example have starts at least int(0.5*window_size) + flank apart
    (the suppression radius of the caller);
- * the input tensor is unchanged.
+ * the input tensor (contiguous, strided view with storage offset, transposed storage) and the buffer behind
+   it are unchanged;
+ * call styles: keywords, positional (X, window_size, flank, target_fdr), defaults omitted (documented
+   window_size=21, flank=10), and the rarely used min_passing_frac / max_passing_frac /
+   weak_threshold_for_counting_sign keywords (they only move the threshold, every clause must still hold).
 Not asserted (not in the statement): which spans are called, the statistical thresholds, the value of
-the p-value beyond `<= threshold`.  recursive_seqlets raises ZeroDivisionError when all windows of
-one length have the same sign (short tracks dominated by bumps) and tfmodisco_seqlets raises inside its threshold estimation on some
-small inputs (and on float64 input); such calls are counted in a note, not reported.
+the p-value beyond `<= threshold`.
+
+Tolerated exceptions (counted in a note) -- everything else that is raised is reported:
+ * recursive_seqlets raises ZeroDivisionError when all windows of one length in [min, max] have the same sign
+   over the whole batch (1 / n_pos or 1 / n_neg in the histogram step; short tracks dominated by bumps).  On
+   quantised tracks the oracle recomputes that precondition exactly; a ZeroDivisionError without it is
+   reported (finding recursive-raised-ZeroDivisionError-unexpected).
+ * tfmodisco_seqlets raises inside its threshold estimation on some small inputs: tolerated only if the
+   innermost frame of tangermeme/seqlet.py in the traceback is _laplacian_null or _isotonic_thresholds;
+   an exception from the extraction / attribution part or from argument handling is reported.
 """
+import traceback
+
 import numpy
 import torch
 
 SCOPE = {
-    'quick': 'recursive_seqlets: directed bumps at positions 0/1/2 and at the end with additional_flanks 0-5, then ~4000 seeded tracks '
-             '(1-6 examples, length 40-600, 0-10 planted +/- bumps of width 3-30 incl. at position 0/1 and ending at length / length-1, '
-             'noise sd 0.05-0.5, thresholds 0.001-0.2, min_seqlet_len 3-12, max_seqlet_len min+1..30, additional_flanks 0-5, '
-             'float32/float64, torch/numpy input); tfmodisco_seqlets: ~700 seeded float32 tracks, window 3-21, flank 0-10, target_fdr 0.05-0.3',
-    'thorough': 'same generators: up to 60000 recursive cases and up to 12000 tfmodisco cases (time-capped)',
+    'quick': 'recursive_seqlets: ~150 directed cases (bumps at positions 0-3 and at the end, edge ramps rising to the first / last position, '
+             'additional_flanks 0-5, 1-3 examples, float32/float64, torch/numpy, C / Fortran / column-strided+offset / row-strided / reversed views, '
+             'positional / default-omitting calls, unrounded values, min_seqlet_len up to 29, max == min, thresholds 0.001 and 0.2), then ~4000 seeded tracks '
+             '(1-6 examples, length 40-600, 0-10 planted +/- bumps of width 3-30 incl. at position 0/1 and ending at length / length-1, 30% with an edge ramp, '
+             'noise sd 0.05-0.5, thresholds 0.001-0.2, min_seqlet_len 3-12 (25%: 3-29), max_seqlet_len min(+1)..30, additional_flanks 0-5, '
+             'float32/float64, torch/numpy input, 35% non-contiguous layouts, 25% positional/default calls, 15% unrounded values; '
+             'ZeroDivisionError accepted only under its recomputed precondition); '
+             'tfmodisco_seqlets: ~130 directed cases (ramps flush with both ends, window 1-21 odd and even, flank 0-10, length 41-101 incl. length == window+2*flank, '
+             'strided / transposed views, positional / default calls, min_passing_frac / max_passing_frac / weak_threshold keywords), then ~700 seeded float32 tracks, '
+             'window 1-30, flank 0-15, target_fdr 0.05-0.3, 30% views, 25% extra keywords, 10% unrounded; exceptions accepted only from the threshold estimation helpers',
+    'thorough': 'same directed cases and generators: up to 60000 recursive cases and up to 12000 tfmodisco cases (time-capped)',
 }
 
 Q = 64.0
+SENTINEL = 977.0          # fills the parts of a larger buffer that the presented view does not cover
+
+REC_DEFAULTS = dict(threshold=0.01, min_len=4, max_len=25, flanks=0)      # documented defaults of recursive_seqlets
+TFM_DEFAULTS = dict(window=21, flank=10, target_fdr=0.2)                  # documented defaults of tfmodisco_seqlets
+TFM_THRESHOLD_HELPERS = ('_laplacian_null', '_isotonic_thresholds')
 
 
 def _track(case):
     rs = numpy.random.RandomState(case['seed'])
     n, l = case['n'], case['l']
-    X = numpy.round(rs.normal(0, case['sd'], size=(n, l)) * Q) / Q
+    X = rs.normal(0, case['sd'], size=(n, l))
+    if case.get('quant', True):
+        X = numpy.round(X * Q) / Q
     for ex, pos, width, height in case['bumps']:
         X[ex, max(pos, 0):pos + width] += height
     return X.astype(case.get('dtype', 'float64'))
+
+
+def _present(X, layout):
+    """(view handed to the caller, buffer that owns the memory); the view equals X element-wise"""
+    n, l = X.shape
+    if layout == 'C':
+        base = numpy.ascontiguousarray(X).copy()
+        return base, base
+    if layout == 'F':
+        base = numpy.asfortranarray(X).copy(order='F')
+        return base, base
+    if layout == 'strided':                     # every second column, starting at column 3 of row 1 of a larger buffer
+        base = numpy.full((n + 1, 2 * l + 3), SENTINEL, dtype=X.dtype)
+        view = base[1:, 3:3 + 2 * l:2]
+        view[...] = X
+        return view, base
+    if layout == 'rowstrided':                  # every second row of a larger buffer
+        base = numpy.full((2 * n, l), SENTINEL, dtype=X.dtype)
+        view = base[::2]
+        view[...] = X
+        return view, base
+    if layout == 'neg':                         # reversed view (negative stride; numpy only)
+        base = numpy.ascontiguousarray(X[:, ::-1]).copy()
+        return base[:, ::-1], base
+    if layout == 'T':                           # storage is (length, n): the transposed view is presented
+        base = numpy.ascontiguousarray(X.T).copy()
+        return base.T, base
+    raise ValueError('unknown layout %r' % (layout,))
 
 
 def _ints(col):
     return all(float(v) == int(v) for v in col)
 
 
+def _rec_params(case):
+    call = case.get('call', 'kw')
+    if call == 'defaults':
+        d = REC_DEFAULTS
+        return d['threshold'], d['min_len'], d['max_len'], d['flanks']
+    if call == 'partial':
+        return case['threshold'], REC_DEFAULTS['min_len'], REC_DEFAULTS['max_len'], case['flanks']
+    return case['threshold'], case['min_len'], case['max_len'], case['flanks']
+
+
+def _zde_expected(X64, mn, mx):
+    """some length in [mn, mx] whose windows (over all examples) are all > 0 or all <= 0: the documented-by-behaviour
+    precondition of the ZeroDivisionError of the histogram step (exact on quantised tracks)"""
+    n, l = X64.shape
+    cs = numpy.cumsum(X64, axis=1)
+    for j in range(mn, mx + 1):
+        if l - j <= 0:
+            return True
+        w = cs[:, j:] - cs[:, :l - j]
+        pos = int((w > 0).sum())
+        if pos == 0 or pos == w.size:
+            return True
+    return False
+
+
 def _eval_recursive(case):
+    """-> (violations, number of seqlets or -1 for a tolerated exception, edge counts)"""
     from tangermeme.seqlet import recursive_seqlets
     out = []
     X = _track(case)
-    X0 = X.copy()
     n, l = X.shape
-    thr, mn, mx, af = case['threshold'], case['min_len'], case['max_len'], case['flanks']
-    arg = torch.from_numpy(X) if case.get('container', 'torch') == 'torch' else X
+    thr, mn, mx, af = _rec_params(case)
+    view, base = _present(X, case.get('layout', 'C'))
+    base0 = base.copy()
+    arg = torch.from_numpy(view) if case.get('container', 'torch') == 'torch' else view
+    call = case.get('call', 'kw')
+    quant = case.get('quant', True)
+    X64 = X.astype(numpy.float64)
     try:
-        df = recursive_seqlets(arg, threshold=thr, min_seqlet_len=mn, max_seqlet_len=mx, additional_flanks=af)
+        if call == 'positional':
+            df = recursive_seqlets(arg, thr, mn, mx, af)
+        elif call == 'defaults':
+            df = recursive_seqlets(arg)
+        elif call == 'partial':
+            df = recursive_seqlets(arg, threshold=thr, additional_flanks=af)
+        else:
+            df = recursive_seqlets(arg, threshold=thr, min_seqlet_len=mn, max_seqlet_len=mx, additional_flanks=af)
     except ZeroDivisionError:
         # every window of some length has the same sign (1 / n_pos or 1 / n_neg in the histogram step): the call
-        # returns nothing, so no clause about returned seqlets is violated; counted in a note
-        return [], -1
+        # returns nothing, so no clause about returned seqlets is violated; counted in a note.  On quantised
+        # tracks the precondition is recomputed exactly and a ZeroDivisionError without it is reported.
+        if quant and not _zde_expected(X64, mn, mx):
+            return [('recursive-raised-ZeroDivisionError-unexpected',
+                     'recursive_seqlets raised ZeroDivisionError although every length in [%d, %d] has windows of both signs' % (mn, mx))], 0, (0, 0)
+        if not numpy.array_equal(base, base0):
+            return [('input-modified', 'recursive_seqlets modified its input (before raising ZeroDivisionError)')], -1, (0, 0)
+        return [], -1, (0, 0)
     except Exception as e:
-        return [('recursive-raised-' + type(e).__name__, 'recursive_seqlets raised %s: %s' % (type(e).__name__, str(e)[:100]))], 0
-    if not numpy.array_equal(X, X0):
-        out.append(('input-modified', 'recursive_seqlets modified its input'))
+        return [('recursive-raised-' + type(e).__name__, 'recursive_seqlets raised %s: %s' % (type(e).__name__, str(e)[:100]))], 0, (0, 0)
+    if not numpy.array_equal(base, base0):
+        out.append(('input-modified', 'recursive_seqlets modified its input (or the buffer its input is a view of)'))
     if list(df.columns) != ['example_idx', 'start', 'end', 'attribution', 'p-value']:
-        return out + [('columns', 'columns are %s' % list(df.columns))], 0
+        return out + [('columns', 'columns are %s' % list(df.columns))], 0, (0, 0)
     if len(df) == 0:
-        return out, 0
+        return out, 0, (0, 0)
     if not (_ints(df['example_idx']) and _ints(df['start']) and _ints(df['end'])):
-        return out + [('non-integral', 'example_idx/start/end are not integral')], len(df)
+        return out + [('non-integral', 'example_idx/start/end are not integral')], len(df), (0, 0)
     pv = [float(p) for p in df['p-value']]
-    if any(b < a for a, b in zip(pv, pv[1:])):
+    if any(not a <= b for a, b in zip(pv, pv[1:])):
         out.append(('unsorted', 'rows are not sorted by ascending p-value'))
-    X64 = X0.astype(numpy.float64)
+    if quant:
+        tol_abs = None
+    else:
+        eps = float(numpy.finfo(X.dtype).eps)
+        tol_abs = [2.0 * l * eps * (1.0 + float(numpy.abs(numpy.cumsum(X64[i])).max())) for i in range(n)]
     msgs = {}
+    at0 = atl = 0
 
     def add(f, m):
         msgs.setdefault(f, []).append(m)
@@ -93,6 +203,8 @@ def _eval_recursive(case):
         if not 0 <= s < e <= l:
             add('span-outside', '%s is not a non-empty span inside [0, %d]' % (tag, l))
             continue
+        at0 += s == 0
+        atl += e == l
         # a core span explaining (start, end)
         ok = False
         for cs in ([s + af] if s > 0 else range(0, af + 1)):
@@ -102,39 +214,68 @@ def _eval_recursive(case):
         if not ok:
             add('length', '%s: no core of length in [%d, %d] with %d additional flanks gives this span' % (tag, mn, mx, af))
         true = float(X64[ex, s:e].sum())
-        if not abs(attr - true) <= 1e-9 * (1 + abs(true)):
+        tol = 1e-9 * (1 + abs(true)) if quant else tol_abs[ex]
+        if not abs(attr - true) <= tol:
             f = 'attribution-wraps-at-start-0' if s == 0 else 'attribution-mismatch'
             add(f, '%s reports attribution %r, the input sums to %r over the span' % (tag, attr, true))
         if not p <= thr:
             add('p-above-threshold', '%s has p-value %r > threshold %r' % (tag, p, thr))
     for f, ms in msgs.items():
         out.append((f, ms[0] + ('' if len(ms) == 1 else ' (and %d more of %d seqlets)' % (len(ms) - 1, len(df)))))
-    return out, len(df)
+    return out, len(df), (at0, atl)
+
+
+def _tfm_params(case):
+    if case.get('call', 'kw') == 'defaults':
+        d = TFM_DEFAULTS
+        return d['window'], d['flank'], d['target_fdr']
+    return case['window'], case['flank'], case['target_fdr']
 
 
 def _eval_tfmodisco(case):
+    """-> (violations, number of seqlets or -1 for a tolerated exception, edge counts)"""
     from tangermeme.seqlet import tfmodisco_seqlets
     out = []
     X = _track(case)
     n, l = X.shape
-    Xt = torch.from_numpy(X.copy())
-    w, fl = case['window'], case['flank']
+    view, base = _present(X, case.get('layout', 'C'))
+    base0 = base.copy()
+    Xt = torch.from_numpy(view)
+    w, fl, fdr = _tfm_params(case)
+    call = case.get('call', 'kw')
+    extra = dict(case.get('extra') or {})
+    quant = case.get('quant', True)
     try:
-        df = tfmodisco_seqlets(Xt, window_size=w, flank=fl, target_fdr=case['target_fdr'])
+        if call == 'positional':
+            df = tfmodisco_seqlets(Xt, w, fl, fdr, **extra)
+        elif call == 'defaults':
+            df = tfmodisco_seqlets(Xt, **extra)
+        else:
+            df = tfmodisco_seqlets(Xt, window_size=w, flank=fl, target_fdr=fdr, **extra)
     except Exception as e:
-        # threshold estimation (Laplacian null / isotonic regression) is outside the statement
-        return [], -1
-    if not numpy.array_equal(Xt.numpy(), X):
-        out.append(('input-modified', 'tfmodisco_seqlets modified its input'))
+        # threshold estimation (Laplacian null / isotonic regression) is outside the statement: tolerated only
+        # if the exception comes out of one of the two estimation helpers
+        frames = [f.name for f in traceback.extract_tb(e.__traceback__) if f.filename.replace('\\', '/').endswith('tangermeme/seqlet.py')]
+        if frames and frames[-1] in TFM_THRESHOLD_HELPERS:
+            if not numpy.array_equal(base, base0):
+                return [('input-modified', 'tfmodisco_seqlets modified its input (before raising in the threshold estimation)')], -1, (0, 0)
+            return [], -1, (0, 0)
+        where = frames[-1] if frames else 'outside seqlet.py'
+        return [('tfmodisco-raised-' + type(e).__name__,
+                 'tfmodisco_seqlets raised %s outside the threshold estimation helpers (innermost frame: %s): %s' % (type(e).__name__, where, str(e)[:100]))], 0, (0, 0)
+    if not numpy.array_equal(base, base0):
+        out.append(('input-modified', 'tfmodisco_seqlets modified its input (or the buffer its input is a view of)'))
     if list(df.columns) != ['example_idx', 'start', 'end', 'attribution']:
-        return out + [('columns', 'columns are %s' % list(df.columns))], 0
+        return out + [('columns', 'columns are %s' % list(df.columns))], 0, (0, 0)
     if len(df) == 0:
-        return out, 0
+        return out, 0, (0, 0)
     if not (_ints(df['example_idx']) and _ints(df['start']) and _ints(df['end'])):
-        return out + [('non-integral', 'example_idx/start/end are not integral')], len(df)
+        return out + [('non-integral', 'example_idx/start/end are not integral')], len(df), (0, 0)
     X64 = X.astype(numpy.float64)
+    eps = float(numpy.finfo(X.dtype).eps)
     radius = int(0.5 * w) + fl
     msgs = {}
+    at0 = atl = 0
 
     def add(f, m):
         msgs.setdefault(f, []).append(m)
@@ -148,8 +289,11 @@ def _eval_tfmodisco(case):
         if e - s != w + 2 * fl or s < 0 or e > l:
             add('tfmodisco-span', '%s does not span window_size+2*flank = %d positions inside [0, %d]' % (tag, w + 2 * fl, l))
             continue
+        at0 += s == 0
+        atl += e == l
         true = float(X64[ex, s + fl:e - fl].sum())
-        if not abs(attr - true) <= 1e-6 * (1 + abs(true)):
+        tol = 1e-9 * (1 + abs(true)) if quant else 4.0 * (w + 2) * eps * (1.0 + float(numpy.abs(X64[ex, s + fl:e - fl]).sum()))
+        if not abs(attr - true) <= tol:
             add('tfmodisco-attribution', '%s reports %r, the central window sums to %r' % (tag, attr, true))
         starts.setdefault(ex, []).append(s)
     for ex, ss in starts.items():
@@ -159,7 +303,7 @@ def _eval_tfmodisco(case):
             add('suppression', 'example %d: two seqlets start %d apart < suppression radius %d' % (ex, min(gaps), radius))
     for f, ms in msgs.items():
         out.append((f, ms[0] + ('' if len(ms) == 1 else ' (and %d more)' % (len(ms) - 1))))
-    return out, len(df)
+    return out, len(df), (at0, atl)
 
 
 def check_recursive(case):
@@ -172,6 +316,12 @@ def check_tfmodisco(case):
 
 # ----------------------------------------------------------------------------------------------
 
+def _ramp(ex, l, side, sign=1.0, widths=(24, 16, 10, 6, 3, 1)):
+    """stacked bumps: a profile rising monotonically towards the first / last position, so that the windows nearest
+    to that edge carry the largest sums (a plateau would make arg-max pick a window away from the edge)"""
+    return [[ex, 0 if side == 'left' else l - w, w, sign * 1.0] for w in widths]
+
+
 def _bumps(rng, n, l, k, wmin, wmax):
     bumps = []
     for _ in range(k):
@@ -179,26 +329,51 @@ def _bumps(rng, n, l, k, wmin, wmax):
         pos = rng.choice([0, 1, 2, l - width, l - width - 1, rng.randint(0, l - width), rng.randint(0, l - width), rng.randint(0, l - width)])
         height = rng.choice([-1, 1]) * rng.randint(32, 256) / Q
         bumps.append([rng.randint(0, n - 1), pos, width, height])
+    if rng.random() < 0.3:
+        bumps += _ramp(rng.randint(0, n - 1), l, rng.choice(['left', 'right']), rng.choice([-1.0, 1.0]))
     return bumps
 
 
 def _gen_recursive(rng, seed):
     n, l = rng.randint(1, 6), rng.choice([40, 41, 50, 64, 100, 150, 200, 300, 600, rng.randint(40, 600)])
-    mn = rng.randint(3, 12)
-    mx = rng.randint(mn + 1, 30)
-    return dict(kind='recursive', seed=seed, n=n, l=l, sd=rng.choice([0.05, 0.1, 0.2, 0.5]),
+    if rng.random() < 0.25:
+        mn = rng.randint(3, 29)            # the whole stated range, including max == min (nothing can be called)
+        mx = rng.randint(mn, 30)
+    else:
+        mn = rng.randint(3, 12)
+        mx = rng.randint(mn + 1, 30)
+    dtype = rng.choice(['float64', 'float64', 'float32'])
+    container = rng.choice(['torch', 'torch', 'numpy'])
+    layout = rng.choice(['C'] * 13 + ['strided', 'strided', 'rowstrided', 'rowstrided', 'neg', 'F', 'F'])
+    if layout == 'neg':
+        container = 'numpy'                # torch.from_numpy refuses negative strides
+    if layout == 'F':
+        dtype = 'float64'                  # one compiled specialisation less
+    case = dict(kind='recursive', seed=seed, n=n, l=l, sd=rng.choice([0.05, 0.1, 0.2, 0.5]),
                 bumps=_bumps(rng, n, l, rng.randint(0, 10), 3, 30),
                 threshold=rng.choice([0.001, 0.005, 0.01, 0.05, 0.1, 0.2, round(rng.uniform(0.001, 0.2), 4)]),
                 min_len=mn, max_len=mx, flanks=rng.choice([0, 0, 1, 2, 3, 4, 5]),
-                dtype=rng.choice(['float64', 'float64', 'float32']), container=rng.choice(['torch', 'torch', 'numpy']))
+                dtype=dtype, container=container, layout=layout,
+                # omitting every argument means threshold 0.01: only worth a call when there are enough windows for such a p-value
+                call=rng.choice(['kw'] * 9 + ['positional', 'positional', 'partial'] + (['defaults'] if l >= 150 and n >= 2 else ['partial'])),
+                quant=rng.random() >= 0.15)
+    return case
 
 
 def _gen_tfmodisco(rng, seed):
     n, l = rng.randint(1, 6), rng.choice([60, 100, 150, 200, 300, 400, 600, rng.randint(40, 600)])
-    w = rng.choice([3, 5, 7, 8, 11, 15, 21])
-    fl = rng.choice([0, 1, 2, 3, 5, 10])
+    w = rng.choice([3, 5, 7, 8, 11, 15, 21, 1, 2, 4, 6, 10, 12, 16, 20, 30])
+    fl = rng.choice([0, 1, 2, 3, 5, 10, 0, 1, 4, 7, 15])
+    extra = {}
+    if rng.random() < 0.25:
+        for key, vals in (('min_passing_frac', [0.0, 0.01, 0.1, 0.3]), ('max_passing_frac', [0.05, 0.1, 0.5, 1.0]),
+                          ('weak_threshold_for_counting_sign', [0.0, 0.5, 1.0])):
+            if rng.random() < 0.5:
+                extra[key] = rng.choice(vals)
     return dict(kind='tfmodisco', seed=seed, n=n, l=l, sd=rng.choice([0.05, 0.1, 0.2]), bumps=_bumps(rng, n, l, rng.randint(0, 10), 3, 30),
-                window=w, flank=fl, target_fdr=rng.choice([0.05, 0.1, 0.2, 0.2, 0.3]), dtype='float32')
+                window=w, flank=fl, target_fdr=rng.choice([0.05, 0.1, 0.2, 0.2, 0.3]), dtype='float32',
+                layout=rng.choice(['C'] * 7 + ['strided', 'strided', 'T']), call=rng.choice(['kw'] * 8 + ['positional', 'positional'] + (['defaults'] if l >= 100 else ['positional'])),
+                extra=extra, quant=rng.random() >= 0.1)
 
 
 def _directed():
@@ -211,20 +386,109 @@ def _directed():
             cases.append(dict(kind='recursive', name='bump@end-%d,flanks=%d' % (end_gap, af), seed=11, n=2, l=120, sd=0.1,
                               bumps=[[1, 120 - 9 - end_gap, 9, -2.5], [0, 40, 6, 2.0]],
                               threshold=0.05, min_len=4, max_len=25, flanks=af, dtype='float64', container='numpy'))
+    # spans clipped to position 0 in an example that is not the first one, and ramps whose strongest windows touch either end
+    for af in range(0, 6):
+        for dtype, container in (('float64', 'numpy'), ('float32', 'torch')):
+            cases.append(dict(kind='recursive', name='bump@1,examples 1+2,flanks=%d,%s,%s' % (af, dtype, container), seed=13, n=3, l=90, sd=0.1,
+                              bumps=[[1, 1, 8, 3.0], [2, 2, 7, -3.0], [0, 50, 6, 2.0], [2, 90 - 8, 8, 2.5]],
+                              threshold=0.05, min_len=4, max_len=25, flanks=af, dtype=dtype, container=container))
+        # (the last core position the caller can reach is length-2, so the clip at the end needs additional_flanks >= 2)
+        cases.append(dict(kind='recursive', name='ramps,flanks=%d' % af, seed=17, n=6, l=150, sd=0.1,
+                          bumps=_ramp(0, 150, 'left', 1.0, (8, 4)) + _ramp(1, 150, 'right', -1.0, (8, 4)) + _ramp(2, 150, 'right', 1.0, (8, 4)),
+                          threshold=0.05, min_len=3, max_len=20, flanks=af, dtype='float64', container='torch'))
+    # memory layouts (each non-C layout is a separate compiled specialisation of the numba kernel)
+    for layout, dtype, container in (('strided', 'float64', 'numpy'), ('strided', 'float32', 'torch'), ('rowstrided', 'float64', 'torch'),
+                                     ('rowstrided', 'float32', 'numpy'), ('neg', 'float64', 'numpy'), ('neg', 'float32', 'numpy'),
+                                     ('F', 'float64', 'numpy'), ('F', 'float64', 'torch'), ('T', 'float64', 'torch')):
+        for af in (0, 3):
+            cases.append(dict(kind='recursive', name='layout=%s,%s,%s,flanks=%d' % (layout, dtype, container, af), seed=19, n=3, l=110, sd=0.1,
+                              bumps=[[0, 1, 8, 3.0], [1, 110 - 10, 9, -2.5], [2, 40, 6, 2.0], [1, 30, 12, 2.0]],
+                              threshold=0.05, min_len=4, max_len=25, flanks=af, dtype=dtype, container=container, layout=layout))
+    # call styles; the documented defaults are what the oracle uses when arguments are omitted
+    for call in ('positional', 'defaults', 'partial'):
+        for seed in (23, 29):
+            cases.append(dict(kind='recursive', name='call=%s,seed=%d' % (call, seed), seed=seed, n=4, l=300, sd=0.1,
+                              bumps=[[0, 1, 10, 3.0], [1, 300 - 12, 11, -2.5], [2, 140, 8, 2.0], [3, 30, 14, 2.0], [3, 200, 5, -3.0]],
+                              threshold=0.02, min_len=6, max_len=11, flanks=2, dtype='float64', container='torch', call=call))
+    # unrounded values: the span sum is compared within the rounding bound of the input dtype
+    for dtype in ('float64', 'float32'):
+        for af in (0, 2):
+            cases.append(dict(kind='recursive', name='unrounded,%s,flanks=%d' % (dtype, af), seed=31, n=3, l=400, sd=0.3, quant=False,
+                              bumps=[[0, 1, 10, 3.1], [1, 400 - 12, 11, -2.7], [2, 140, 8, 2.3], [0, 200, 14, 1.9]],
+                              threshold=0.05, min_len=4, max_len=25, flanks=af, dtype=dtype, container='numpy'))
+    # edges of the stated ranges: long minimum lengths, max == min, max == min + 1, thresholds 0.001 and 0.2
+    for mn, mx in ((3, 3), (3, 4), (12, 12), (20, 30), (25, 30), (29, 30), (30, 30), (3, 30)):
+        for thr in (0.001, 0.2):
+            cases.append(dict(kind='recursive', name='min=%d,max=%d,threshold=%g' % (mn, mx, thr), seed=37, n=4, l=600 if thr < 0.01 else 150, sd=0.1,
+                              bumps=[[0, 1, 30, 2.0], [1, 60, 29, -2.0], [2, 100, 26, 2.5], [3, 150 - 31, 30, 2.0], [3, 20, 4, 3.0], [0, 80, 3, -3.0]],
+                              threshold=thr, min_len=mn, max_len=mx, flanks=1, dtype='float64', container='torch'))
+    return cases
+
+
+def _directed_tfmodisco():
+    cases = []
+    k = 0
+    layouts = ('C', 'strided', 'T', 'C')
+    for w in (1, 2, 3, 4, 7, 8, 15, 21):
+        for fl in (0, 1, 2, 5, 10):
+            for l in (60, 101):
+                if w + 2 * fl + 10 > l:
+                    continue
+                k += 1
+                cases.append(dict(kind='tfmodisco', name='ramps,window=%d,flank=%d,l=%d' % (w, fl, l), seed=41 + k, n=4, l=l, sd=0.1,
+                                  bumps=_ramp(0, l, 'left') + _ramp(1, l, 'right', -1.0) + [[2, l // 2, 9, 2.0], [3, 5, 6, -2.0]]
+                                  + _ramp(3, l, 'right', 1.0, (12, 8, 5, 3, 1)),
+                                  window=w, flank=fl, target_fdr=0.2, dtype='float32', layout=layouts[k % 4]))
+    # the example is exactly one seqlet long (a single admissible window), or one position longer
+    for w, fl in ((21, 10), (11, 15), (30, 5), (40, 0)):
+        for l in (w + 2 * fl, w + 2 * fl + 1):
+            cases.append(dict(kind='tfmodisco', name='single-window,window=%d,flank=%d,l=%d' % (w, fl, l), seed=43, n=6, l=l, sd=0.1,
+                              bumps=[[0, fl, w, 1.0], [1, l - fl - w, w, -1.0], [2, fl, 5, 2.0], [4, l // 2, 3, 2.0]],
+                              window=w, flank=fl, target_fdr=0.2, dtype='float32'))
+    base = dict(kind='tfmodisco', n=5, l=200, sd=0.1, window=7, flank=2, target_fdr=0.2, dtype='float32')
+    bumps = _ramp(0, 200, 'left') + _ramp(1, 200, 'right') + [[2, 100, 10, -3.0], [3, 150, 10, 2.0], [4, 20, 25, 1.5]]
+    for call in ('positional', 'defaults'):
+        for layout in ('C', 'strided'):
+            cases.append(dict(base, name='call=%s,%s' % (call, layout), seed=5047, bumps=bumps, call=call, layout=layout))
+    for extra in (dict(min_passing_frac=0.0), dict(min_passing_frac=0.1), dict(min_passing_frac=0.3, max_passing_frac=0.5), dict(max_passing_frac=0.05),
+                  dict(max_passing_frac=1.0), dict(min_passing_frac=0.5, max_passing_frac=0.4), dict(weak_threshold_for_counting_sign=0.0),
+                  dict(weak_threshold_for_counting_sign=1.0), dict(min_passing_frac=0.2, max_passing_frac=1.0, weak_threshold_for_counting_sign=0.5)):
+        for w, fl in ((7, 2), (8, 0)):
+            cases.append(dict(base, name='extra=%s,window=%d,flank=%d' % (sorted(extra.items()), w, fl), seed=53, bumps=bumps, extra=extra, window=w, flank=fl))
+    for fl in (0, 3):
+        cases.append(dict(base, name='unrounded,flank=%d' % fl, seed=59, bumps=bumps, quant=False, flank=fl))
     return cases
 
 
 def run(rep):
+    torch.set_num_threads(1)
     thorough = rep.tier == 'thorough'
     rng = rep.rng
     n_rec, n_tfm = (60000, 12000) if thorough else (4000, 700)
-    total, zde = 0, 0
+    total, zde, e0, el = 0, 0, 0, 0
     for case in _directed():
-        viol, k = _eval_recursive(case)
+        viol, k, (a, b) = _eval_recursive(case)
         total += max(k, 0)
+        zde += k < 0
+        e0, el = e0 + a, el + b
         rep.case(('d', case['name']), nontrivial=k > 0, section='recursive-directed', sample={x: case[x] for x in ('name', 'flanks', 'bumps')})
         for f, m in viol:
             rep.violation(m, case, finding=f)
+    t_total, t_raised, t0, tl = 0, 0, 0, 0
+    for case in _directed_tfmodisco():
+        for attempt in range(4):
+            # a directed configuration whose noise makes the threshold estimation raise is retried with another noise seed
+            if attempt:
+                case = dict(case, seed=case['seed'] + 1000, name=case['name'] + "'")
+            viol, k, (a, b) = _eval_tfmodisco(case)
+            t_total += max(k, 0)
+            t_raised += k < 0
+            t0, tl = t0 + a, tl + b
+            rep.case(('dt', case['name']), nontrivial=k > 0, section='tfmodisco-directed', sample={x: case[x] for x in ('name', 'window', 'flank')})
+            for f, m in viol:
+                rep.violation(m, case, finding=f)
+            if k >= 0:
+                break
     share = 0.55 * rep.left()
     t_end = rep.left() - share
     for i in range(n_rec):
@@ -232,27 +496,30 @@ def run(rep):
             rep.note('time budget: %d of %d recursive cases evaluated' % (i, n_rec))
             break
         case = _gen_recursive(rng, rep.seed * 1000003 + i)
-        viol, k = _eval_recursive(case)
+        viol, k, (a, b) = _eval_recursive(case)
         zde += k < 0
         total += max(k, 0)
-        rep.case(('r', rep.seed, i), nontrivial=k > 0, section='recursive', sample={x: case[x] for x in ('seed', 'n', 'l', 'threshold', 'min_len', 'max_len', 'flanks')})
+        e0, el = e0 + a, el + b
+        rep.case(('r', rep.seed, i), nontrivial=k > 0, section='recursive',
+                 sample={x: case[x] for x in ('seed', 'n', 'l', 'threshold', 'min_len', 'max_len', 'flanks', 'layout', 'call')})
         for f, m in viol:
             rep.violation(m, case, finding=f)
-    rep.note('%d recursive seqlets checked; %d recursive calls raised ZeroDivisionError (all windows of one length one-signed; not asserted)' % (total, zde))
-    total, raised = 0, 0
+    rep.note('%d recursive seqlets checked (%d starting at position 0, %d ending at the last position); %d recursive calls raised ZeroDivisionError '
+             '(all windows of one length one-signed - recomputed on quantised tracks; not asserted)' % (total, e0, el, zde))
     for i in range(n_tfm):
         if rep.left() < 2:
             rep.note('time budget: %d of %d tfmodisco cases evaluated' % (i, n_tfm))
             break
         case = _gen_tfmodisco(rng, rep.seed * 1000003 + 500000 + i)
-        viol, k = _eval_tfmodisco(case)
-        if k < 0:
-            raised += 1
-        total += max(k, 0)
-        rep.case(('t', rep.seed, i), nontrivial=k > 0, section='tfmodisco', sample={x: case[x] for x in ('seed', 'n', 'l', 'window', 'flank')})
+        viol, k, (a, b) = _eval_tfmodisco(case)
+        t_raised += k < 0
+        t_total += max(k, 0)
+        t0, tl = t0 + a, tl + b
+        rep.case(('t', rep.seed, i), nontrivial=k > 0, section='tfmodisco', sample={x: case[x] for x in ('seed', 'n', 'l', 'window', 'flank', 'layout', 'call', 'extra')})
         for f, m in viol:
             rep.violation(m, case, finding=f)
-    rep.note('%d tfmodisco seqlets checked; %d tfmodisco calls raised inside the threshold estimation (not asserted)' % (total, raised))
+    rep.note('%d tfmodisco seqlets checked (%d starting at position 0, %d ending at the last position); %d tfmodisco calls raised inside the '
+             'threshold estimation helpers (not asserted)' % (t_total, t0, tl, t_raised))
 
 
 def replay(case):
